@@ -75,6 +75,23 @@ def replay_written_first(target, other, model, nr, nrho, w, route):
   return (bool(bad), "the same lists and potentials were written as %s first; the %s file then written: " % (other, target) + ("; ".join(bad[:3]) or "agrees with the model"), rec)
 
 
+def replay_pair_iterable(target, model, nr, nrho, w):
+  """concrete: the procedural writer given its pair potentials as a generator"""
+  import io
+  cutoff, cutoff_rho, dr, drho = EP._grid(w, nr, nrho)
+  funcs = EC.concrete_functions(EC.function_names(model))
+  eampots, pairpots, dip, quad = EC.build_objects(model, lambda name: funcs[name], EC.conc_meta)
+  try:
+    out = io.StringIO()
+    write_target(target, "func", model, eampots, (p_ for p_ in list(pairpots)), dip, quad, cutoff, nr, cutoff_rho, nrho, out)
+    parsed, O, E = observed_expected(target, out.getvalue(), model, nr, nrho, dr, drho, EC.float_alg(funcs), EC.conc_meta)
+    bad = EC.compare_dicts(O, E, 1e-12, 1e-12) if EP.STYLE.get(target) else EC.compare_dicts(O, E, 1e-9, 6e-7)
+  except Exception as e:  # noqa
+    bad = ["%s: %s" % (type(e).__name__, e)]
+  rec = dict(kind="eam_pair_iterable", target=target, model=model.describe(), nr=nr, nrho=nrho, cutoff=cutoff, cutoff_rho=cutoff_rho, mismatches=bad[:10])
+  return (bool(bad), "pair potentials handed over as a generator: " + ("; ".join(bad[:3]) or "agrees with the model"), rec)
+
+
 def replay_cutoff_arg(target, model, nr, nrho, w):
   """concrete: writeSetFL*(..., cutoff=x) for the witness x and a few fractions of the table's extent"""
   import io
@@ -176,7 +193,7 @@ def replay_rewrite(target, model, nr, nrho, w):
 
 
 def api_case(target, elements, pairs, nr, nrho, route="class", rot=0, dip=None, quad=None, extra_vcs=None, rewrite=True, surplus=None, shared=None, fs_undeclared=None,
-             written_first=None, energy_override=None, cutoff_arg=False, fs_on_demand=False):
+             written_first=None, energy_override=None, cutoff_arg=False, fs_on_demand=False, pair_iterable=False):
   """written_first: another target of the same family; the same python objects (lists, potentials) are written in that format
   first - the caller's objects are not the writer's to change"""
   fs = target.endswith("_fs")
@@ -196,6 +213,9 @@ def api_case(target, elements, pairs, nr, nrho, route="class", rot=0, dip=None, 
       made.append(m)
       return m
     eampots, pairpots, d, q = EC.build_objects(model, mk, EC.sym_meta)
+    if pair_iterable:
+      # the pair potentials handed over as a single-pass iterable (a generator filtering a library of potentials)
+      pairpots = (p_ for p_ in list(pairpots))
     if written_first:
       write_target(written_first, "class" if route == "class" else "func", model, eampots, pairpots, d, q, cutoff, nr, cutoff_rho, nrho, Sink())
     out = Sink()
@@ -262,6 +282,8 @@ def api_case(target, elements, pairs, nr, nrho, route="class", rot=0, dip=None, 
     return vcs
 
   def replay(v, w, path, structural):
+    if pair_iterable:
+      return replay_pair_iterable(target, model, nr, nrho, w)
     if cutoff_arg:
       return replay_cutoff_arg(target, model, nr, nrho, w)
     if written_first:
@@ -516,4 +538,18 @@ def long_label_cases(target, tier):
         extra = dict(dip=cov[(j + 1) % len(cov)], quad=cov[(j + 2) % len(cov)])
       out.append(Case("api %s %s #%d" % (target, "/".join(order), j), api_case, target=target, elements=order, pairs=cov[(3 * j + i) % len(cov)], nr=3, nrho=2 + j % 2,
                       route="class" if j % 2 or target == "eam_adp" else "func", rot=j, **extra))
+  return out
+
+
+def pair_iterable_cases(target, tier):
+  from symx.run import Case
+  out = []
+  for i, order in enumerate([("Cu", "Al"), ("Zr", "Cu", "Al")] + ([] if tier == "quick" else [("Al",)])):
+    cov = EC.covering_pair_states(order, seed=i + 17)
+    st = dict(cov[i % len(cov)])
+    # (at least one pair declared)
+    k0 = sorted(st)[0]
+    st[k0] = st[k0] or (k0[0], k0[1])
+    out.append(Case("api %s %s pair potentials as a generator" % (target, "/".join(order)), api_case, target=target, elements=order, pairs=st, nr=3, nrho=2,
+                    route="func", rot=i, rewrite=False, pair_iterable=True))
   return out
